@@ -425,3 +425,26 @@ theorem scatter_batched (bs size : Nat) (v : Nat × Nat → α) (g0 : α) {b i :
 
 end batch
 end Primitiv.Arith
+
+/-! ### three-level nests as nested sums -/
+namespace Primitiv.Arith
+open Finset
+section sums3
+variable {α : Type} [AddCommMonoid α]
+
+theorem sum_range3 (n m l : Nat) (f : Nat × Nat × Nat → α) :
+    ((range3 n m l).map f).sum = ∑ a ∈ range n, ∑ b ∈ range m, ∑ c ∈ range l, f (a, b, c) := by
+  induction n with
+  | zero => simp [range3]
+  | succ n ih =>
+    rw [range3_succ, List.map_append, List.sum_append, ih, Finset.sum_range_succ, List.map_map]
+    congr 1
+    exact sum_range2 m l fun p => f (n, p.1, p.2)
+
+/-- a sum over the three-level nest is the flat sum over `n·(m·l)` cells -/
+theorem sum_range3_flat (n m l : Nat) (g : Nat → α) :
+    ((range3 n m l).map fun t => g (t.1 * (m * l) + (t.2.1 * l + t.2.2))).sum = ∑ i ∈ range (n * (m * l)), g i := by
+  rw [range3_map_flat, list_sum_map_range]
+
+end sums3
+end Primitiv.Arith
